@@ -133,11 +133,13 @@ fn all_vectors(n: usize, specs: &[ChildSpec]) -> Vec<Vec<ChildSpec>> {
 
 fn join_cfgs(prop: &'static str, max_n: usize, depth: usize, post: usize, epi: Epilogue) -> Vec<Cfg> {
     let mut v = vec![];
-    for plain in [false, true] {
+    for variant in 0..3 {
+        let plain = variant == 1;
+        let nd = variant == 2;
         for n in 0..=max_n {
             for pre in all_vectors(n, &[f(Mode::Gate), f(Mode::Ready)]) {
-                let mut c = Cfg::new(prop, if plain { Kind::JaP(n) } else { Kind::Ja(n) });
-                c.name = format!("join_all{}[{}]", if plain { "<plain>" } else { "" }, pre.iter().map(|p| p.render()).collect::<Vec<_>>().join(","));
+                let mut c = Cfg::new(prop, if plain { Kind::JaP(n) } else if nd { Kind::JaN(n) } else { Kind::Ja(n) });
+                c.name = format!("join_all{}[{}]", if plain { "<plain output>" } else if nd { "<future without drop glue>" } else { "" }, pre.iter().map(|p| p.render()).collect::<Vec<_>>().join(","));
                 c.prefill = pre;
                 c.ops = ops::POLL | ops::COMPLETE | ops::WAKE;
                 c.costly = ops::WAKE;
@@ -152,8 +154,8 @@ fn join_cfgs(prop: &'static str, max_n: usize, depth: usize, post: usize, epi: E
                 continue;
             }
             for pre in all_vectors(n, &[f(Mode::Gate), f(Mode::Ready), ChildSpec::failing(Mode::Gate), ChildSpec::failing(Mode::Ready)]) {
-                let mut c = Cfg::new(prop, if plain { Kind::TjaP(n) } else { Kind::Tja(n) });
-                c.name = format!("try_join_all{}[{}]", if plain { "<plain>" } else { "" }, pre.iter().map(|p| p.render()).collect::<Vec<_>>().join(","));
+                let mut c = Cfg::new(prop, if plain { Kind::TjaP(n) } else if nd { Kind::TjaN(n) } else { Kind::Tja(n) });
+                c.name = format!("try_join_all{}[{}]", if plain { "<plain output>" } else if nd { "<future without drop glue>" } else { "" }, pre.iter().map(|p| p.render()).collect::<Vec<_>>().join(","));
                 c.prefill = pre;
                 c.ops = ops::POLL | ops::COMPLETE | ops::WAKE;
                 c.costly = ops::WAKE;
@@ -459,6 +461,15 @@ pub fn scenarios(prop: &str, tier: &str) -> Vec<Cfg> {
                 }
                 c.costly = ops::PUSH_WHEN_FULL | ops::PANIC_PUSH | ops::WAKER_POOL;
                 c.delta = 2;
+                c.depth = d;
+                c.epilogue = Epilogue::DropNow;
+                v.push(c);
+            }
+            for k in [Kind::FobN(2), Kind::FobN(3)] {
+                let mut c = Cfg::new("C06", k);
+                c.name = format!("{:?} (futures without drop glue)", k);
+                c.specs = vec![f(Mode::Gate), f(Mode::Ready)];
+                c.ops = ops::PUSH | ops::PUSH_FRONT | ops::POLL | ops::COMPLETE | ops::PUSH_WHEN_FULL;
                 c.depth = d;
                 c.epilogue = Epilogue::DropNow;
                 v.push(c);
